@@ -3,7 +3,7 @@
    its assumptions printed.  The model is Model/Str.v (builtin/string.rs, builtin/char.rs
    as written, with the fix: commits named there) over Gen/CaseTables.v.               *)
 From MW Require Import Model.Base Model.F64 Model.Num Model.Datum Model.TransformDef
-  Model.VmTypes Model.Heap Model.VmBase Model.Str Proofs.StrProofs.
+  Model.VmTypes Model.Heap Model.VmBase Model.Str Proofs.StrProofs Proofs.StrHeapProofs.
 Open Scope N_scope.
 
 (* ---- the byte-offset code against the vector-of-scalars specification ---- *)
@@ -374,17 +374,21 @@ Theorem C15_cores_no_panic : forall t,
 Proof. exact cores_no_panic. Qed.
 Print Assumptions C15_cores_no_panic.
 
-(* OPEN (not proved here): the heap list built by string->list reads back as the selected
-   characters.  C15_string_list_refines reduces string->list to [chars_to_list]; that
-   [chars_to_list] allocates fresh cells and leaves a proper list needs the heap
-   well-formedness invariants of the allocator (free list in range, duplicate free), which
-   belong to the heap/GC package.  The correspondence check compares the written form of the
-   resulting list on every string->list case. *)
-Definition C15_string_list_heap_stmt : Prop :=
-  forall s cs, stack_ok s ->
-  (forall p, In p (free_list (hp s)) -> p < hlen (hp s)) -> NoDup (free_list (hp s)) -> 0 < chunk (hp s) ->
+(* the second half of string->list: from a well-formed heap ([hwf]: free list in range and
+   duplicate free, length a positive multiple of the chunk size) the list builder returns a
+   pointer to a proper list holding exactly the given characters; the Rc store is untouched *)
+Theorem C15_string_list_heap : forall s cs,
+  hwf (hp s) ->
   exists v v' s', (dom nl <- hput VNil; chars_to_list (rev cs) nl) s = ROk v s' /\
-                  st s' = st s /\ heap_deref (hp s') v = Ok v' /\ heap_chars (hp s') v' cs.
+                  st s' = st s /\ sp s' = sp s /\
+                  heap_deref (hp s') v = Ok v' /\ heap_chars (hp s') v' cs.
+Proof. exact string_list_heap. Qed.
+Print Assumptions C15_string_list_heap.
+
+(* [hwf] holds of a new machine's heap and is kept by every allocation of a plain value *)
+Theorem C15_heap_wf_established : forall c, 0 < c -> hwf (heap_new c).
+Proof. exact heap_new_wf. Qed.
+Print Assumptions C15_heap_wf_established.
 
 (* non-vacuity: a four-character string of widths 1,2,4,1 *)
 Example C15_ex_set :
